@@ -262,6 +262,61 @@ def _scalarise_fields(fd, obj, info):
             break
 
 
+def _scalarise_returned_aggregates(fd, records):
+    """After folding: `auto m = helper(...)` (or `const auto [a, b] = helper(...)`) where the folded helper has one return and
+    it builds a small NEW aggregate `{e1, e2}`, and the local is only ever accessed field by field: the local is replaced by one
+    pseudo local per field, declared with the helper's initialisers -- a helper returning two values in a struct then reads
+    like the two expressions spelled out in place."""
+    kr = known_records()
+    if kr is None:
+        return
+    nodes = fd["nodes"]
+    new_recs = {r["uq"]: r for r in records if r["uq"] not in kr and not r.get("lambda") and not r.get("bases")}
+    if not new_recs:
+        return
+
+    def strip_val(i):
+        hops = 0
+        while hops < 10:
+            x = nodes[i]
+            k = x.get("k")
+            if k in ("ImplicitCastExpr", "ParenExpr", "ExprWithCleanups", "MaterializeTemporaryExpr", "CXXBindTemporaryExpr",
+                     "CXXFunctionalCastExpr") and x.get("c"):
+                i, hops = x["c"][0], hops + 1
+                continue
+            if k == "CXXConstructExpr" and len(x.get("args", [])) == 1 and x.get("callee") and (x["callee"].get("copy") or x["callee"].get("move")):
+                i, hops = x["args"][0], hops + 1
+                continue
+            return i
+        return i
+    cands = {}
+    for n in nodes:
+        if n.get("k") != "DeclStmt":
+            continue
+        for d in n.get("decls", []):
+            if d.get("rt") in new_recs and "init" in d and d["d"] not in fd.get("_objs", {}):
+                i = strip_val(d["init"])
+                x = nodes[i]
+                if x.get("inlined") and isinstance(x.get("rets"), list) and len(x["rets"]) == 1:
+                    j = strip_val(x["rets"][0])
+                    il = nodes[j]
+                    if il.get("k") == "InitListExpr" and len(il.get("c", [])) == len(new_recs[d["rt"]].get("fields", [])):
+                        cands[d["d"]] = {"cls": d["rt"], "name": d.get("n") or "ret", "agg_init": j, "decl_stmt": n["i"], "rec": new_recs[d["rt"]]}
+    if not cands:
+        return
+    allowed = set()
+    for n in nodes:
+        if n.get("k") == "MemberExpr" and n.get("mk") == "Field" and n.get("c") and not n.get("arrow"):
+            o = nodes[_strip_idx(nodes, n["c"][0])]
+            if o.get("k") == "DeclRefExpr" and o.get("d") in cands:
+                allowed.add(o["i"])
+    for n in nodes:
+        if n.get("k") == "DeclRefExpr" and n.get("d") in cands and n["i"] not in allowed:
+            cands.pop(n["d"], None)
+    for obj, info in cands.items():
+        _scalarise_fields(fd, obj, info)
+
+
 _pseudo_next = [1_900_000_000]
 
 
@@ -488,6 +543,7 @@ def inline_unit(unit_json):
             instance += 1
             inline_once(u, fd, bid, idx, call_id, tgt, instance, skip, this_obj=_object_of(fd, fd["nodes"][call_id]))
             inlined_into.add(tgt["did"])
+        _scalarise_returned_aggregates(fd, unit_json.get("records", []))
     kn = known_functions()
     drop = set()
     for did in inlined_into:
